@@ -214,6 +214,9 @@ namespace vctl {
         explicit Rng(std::uint64_t seed)
           : x(seed * 0x9E3779B97F4A7C15ull + 0x1234567ull)
         {
+            // scramble: without this Rng(s) and Rng(s+1) are the same stream shifted by one draw
+            x = next() ^ (seed * 0xD1342543DE82EF95ull);
+            x = next();
         }
         std::uint64_t next()
         {
